@@ -7,6 +7,7 @@ import re
 from engine.cfg import CFG, normalise_compare, atoms
 from engine.model import src, stmt_key, dotted, AnalysisError
 from engine.project import feasible_paths, eval_norm
+from engine import pat
 from engine.twins import TwinSpec, project, first_difference, count_events
 from engine.util import own_nodes, calls_with_nodes, where
 
@@ -138,7 +139,8 @@ def run(model, rep, tier):
                     params = callee.params()
                     amap = {params[i]: src(a) for i, a in enumerate(rc[0].args) if i < len(params)}
                     amap.update({k.arg: src(k.value) for k in rc[0].keywords})
-                    okk = amap.get("ignore_errors") == "ignore_errors" and amap.get("query") == "q" and amap.get("destination") == "destination"
+                    sends = [c for c in ast.walk(f.node) if isinstance(c, ast.Call) and (dotted(c.func) or "").endswith("send_udp") and len(c.args) >= 3]
+                    okk = amap.get("ignore_errors") == "ignore_errors" and amap.get("query") == "q" and len(sends) == 1 and amap.get("destination") == src(sends[0].args[2])
                 rep.check(okk, "R-18.1", f.qualname, where(f, f.node), "with ignore_errors the filtering is delegated: receive_udp gets ignore_errors, the query and the destination",
                           "with ignore_errors=True nothing checks the reply: receive_udp is not given (ignore_errors, query=q, destination)", stmt="delegates-check")
     rep.floor("R-18.1", n_ex, 14)
@@ -168,7 +170,8 @@ def run(model, rep, tier):
     rep.check(okk, "R-18.1", mdf.qualname, where(mdf, mdf.node), "source must equal the destination (address and port; multicast: port) else skip/raise", "_matches_destination changed", stmt="matches-shape")
     ae = model.func("dns.query._addresses_equal")
     t = " ".join(src(ae.node).split())
-    rep.check("n1 = dns.inet.inet_pton(af, a1[0])" in t and "n2 = dns.inet.inet_pton(af, a2[0])" in t and "return n1 == n2 and a1[1:] == a2[1:]" in t, "R-18.1", ae.qualname, where(ae, ae.node),
+    e = pat.Env()
+    rep.check(pat.has(ae.node, "__n1 = dns.inet.inet_pton(af, a1[0])", e) and pat.has(ae.node, "__n2 = dns.inet.inet_pton(af, a2[0])", e) and pat.has(ae.node, "return __n1 == __n2 and a1[1:] == a2[1:]", e), "R-18.1", ae.qualname, where(ae, ae.node),
               "binary address comparison plus port (and scope)", "_addresses_equal changed", stmt="addresses-equal")
     ir = model.func("dns.message.Message.is_response")
     cfg = CFG(ir.node, implicit_exc=False)
@@ -180,7 +183,7 @@ def run(model, rep, tier):
         okk = all(cfg.edge_dominated(r.id, {(first.id, "f")}) for r in rets) and bool(rets)
     rep.check(okk, "R-18.1", ir.qualname, where(ir, ir.node), "is_response requires QR, same id and same opcode before anything else", "is_response no longer requires (QR set, same id, same opcode)", stmt="is-response-header")
     t = " ".join(src(ir.node).split())
-    rep.check("for n in self.question: if n not in other.question: return False for n in other.question: if n not in self.question: return False return True" in t, "R-18.1", ir.qualname, where(ir, ir.node),
+    rep.check(pat.ends_with(ir.node, "...\nfor __n in self.question:\n    if __n not in other.question:\n        return False\nfor __m in other.question:\n    if __m not in self.question:\n        return False\nreturn True"), "R-18.1", ir.qualname, where(ir, ir.node),
               "question sections must be equal as sets", "question comparison in is_response changed", stmt="is-response-question")
 
     # ---------------------------------------------------------------- R-18.2
@@ -220,32 +223,38 @@ def run(model, rep, tier):
                   "the read loop can be left early: a short message is returned at EOF or on a partial read", stmt="no-early-exit")
         rets = [n for n in cfg.nodes if isinstance(n.ast, ast.Return)]
         rep.check(len(rets) == 1 and cfg.edge_dominated(rets[0].id, {(lp.id, "f")}), "R-18.3", qn, where(f, f.node), "returns only after the loop condition failed", "returns before the requested octets were read", stmt="return-after-loop")
-        eof = [n for n in cfg.nodes if n.kind == "test" and set(atoms(normalise_compare(n.ast.test))) == {("n", "==", "b''")}]
+        e = pat.Env()
+        pat.has(lp.ast, f"__n = {recv}(...)", e)
+        vn = e.get("__n", "?")
+        eof = [n for n in cfg.nodes if n.kind == "test" and set(atoms(normalise_compare(n.ast.test))) == {(vn, "==", "b''")}]
         okk = len(eof) == 1 and any(isinstance(s, ast.Raise) and "EOFError" in src(s) for s in eof[0].ast.body)
         rep.check(okk, "R-18.3", qn, where(f, f.node), "an empty read raises EOFError", "an empty read (peer closed) no longer raises EOFError", stmt="eof-raises")
         dec = [stmt_key(s) for s in ast.walk(lp.ast) if isinstance(s, (ast.AugAssign, ast.Assign)) and "count" in src(s.targets[0] if isinstance(s, ast.Assign) else s.target)]
-        rep.check(dec in (["count -= len(n)"], ["count = count - len(n)"]), "R-18.3", qn, where(f, f.node), "count decreases by exactly the octets received", f"count is updated as {dec}", stmt="count-decreases")
-        acc = [stmt_key(s) for s in ast.walk(lp.ast) if isinstance(s, (ast.AugAssign, ast.Assign)) and src(s.targets[0] if isinstance(s, ast.Assign) else s.target) == "s"]
-        rep.check(acc in (["s += n"], ["s = s + n"]), "R-18.3", qn, where(f, f.node), "received octets are appended in order", f"accumulation is {acc}", stmt="append")
+        rep.check(dec in ([f"count -= len({vn})"], [f"count = count - len({vn})"]), "R-18.3", qn, where(f, f.node), "count decreases by exactly the octets received", f"count is updated as {dec}", stmt="count-decreases")
+        vs = src(rets[0].ast.value) if len(rets) == 1 and rets[0].ast.value is not None else "?"
+        acc = [stmt_key(s) for s in ast.walk(lp.ast) if isinstance(s, (ast.AugAssign, ast.Assign)) and src(s.targets[0] if isinstance(s, ast.Assign) else s.target) == vs]
+        rep.check(acc in ([f"{vs} += {vn}"], [f"{vs} = {vs} + {vn}"]), "R-18.3", qn, where(f, f.node), "received octets are appended in order", f"accumulation is {acc}", stmt="append")
         rc = [c for c in ast.walk(lp.ast) if isinstance(c, ast.Call) and src(c.func) == recv]
         rep.check(len(rc) == 1 and src(rc[0].args[0]) == "count", "R-18.3", qn, where(f, f.node), "never asks for more than the remaining count", "recv may read past the end of the message", stmt="recv-count")
     nw = model.func("dns.query._net_write")
     t = " ".join(src(nw.node).split())
-    rep.check("while current < l:" in t and "current += sock.send(data[current:])" in t and "l = len(data)" in t and "current = 0" in t, "R-18.3", nw.qualname, where(nw, nw.node),
+    e = pat.Env()
+    rep.check(pat.has(nw.node, "while __cur < __l:", e) and pat.has(nw.node, "__cur += sock.send(data[__cur:])", e) and pat.has(nw.node, "__l = len(data)", e) and pat.has(nw.node, "__cur = 0", e), "R-18.3", nw.qualname, where(nw, nw.node),
               "writes until all octets are sent, advancing by the return of send()", "_net_write no longer advances by what send() reported / can stop early", stmt="write-loop")
     rep.check(not any(isinstance(n, (ast.Break, ast.Return)) for n in ast.walk(nw.node)), "R-18.3", nw.qualname, where(nw, nw.node), "no early exit from the write loop", "write loop can be left early", stmt="write-no-early-exit")
     for mod in ("dns.query", "dns.asyncquery"):
         rt = model.func(f"{mod}.receive_tcp")
         t = " ".join(src(rt.node).split()).replace("await ", "")
         rd = "_net_read" if mod == "dns.query" else "_read_exactly"
-        rep.check(f"ldata = {rd}(sock, 2, expiration)" in t and ("(l,) = struct.unpack('!H', ldata)" in t or "l, = struct.unpack('!H', ldata)" in t) and f"wire = {rd}(sock, l, expiration)" in t,
+        rep.check(pat.has(rt.node, f"__ldata = {rd}(sock, 2, expiration)\n(__l,) = struct.unpack('!H', __ldata)\n__wire = {rd}(sock, __l, expiration)"),
                   "R-18.3", rt.qualname, where(rt, rt.node), "reads a 2-octet big-endian length, then exactly that many octets", "TCP length-prefix decoding changed", stmt="length-prefix-read")
         stf = model.func(f"{mod}.send_tcp")
         t = " ".join(src(stf.node).split())
-        rep.check("tcpmsg = what.to_wire(prepend_length=True)" in t and "tcpmsg = len(what).to_bytes(2, 'big') + what" in t, "R-18.3", stf.qualname, where(stf, stf.node),
+        e = pat.Env()
+        rep.check(pat.has(stf.node, "__m = what.to_wire(prepend_length=True)", e) and pat.has(stf.node, "__m = len(what).to_bytes(2, 'big') + what", e), "R-18.3", stf.qualname, where(stf, stf.node),
                   "prepends a 2-octet big-endian length", "TCP length-prefix encoding changed", stmt="length-prefix-write")
     mw = model.func("dns.message.Message.to_wire")
-    rep.check("wire = len(wire).to_bytes(2, 'big') + wire" in src(mw.node), "R-18.3", mw.qualname, where(mw, mw.node), "prepend_length uses 2 octets big-endian", "prepend_length encoding changed", stmt="prepend-length")
+    rep.check(pat.has(mw.node, "__w = len(__w).to_bytes(2, 'big') + __w"), "R-18.3", mw.qualname, where(mw, mw.node), "prepend_length uses 2 octets big-endian", "prepend_length encoding changed", stmt="prepend-length")
     for qn in ("dns.query._udp_recv", "dns.query._udp_send"):
         f = model.func(qn)
         hs = [h for h in ast.walk(f.node) if isinstance(h, ast.ExceptHandler)]
